@@ -163,15 +163,11 @@ theorem spDecrefA_holds {p p' : SP} {id : Id} {rel : Bool} {s s' : AS}
           apply ho.congr
           simp only [SP.owned]
           perm_blocks
-        have h2 := (ht _ h1).free id
-        apply h2.congr
+        apply Holds.free_perm (ht _ h1)
         apply List.perm_iff_count.mpr; intro a
-        have := ite_le_count hm a
-        simp only [SP.owned, eraseP_ids, List.count_erase, List.count_cons, List.count_append] at this ⊢
-        generalize (if (id == a) = true then 1 else 0) = x at this ⊢
-        generalize (if (p.hdr == a) = true then 1 else 0) = y
-        trace_state
-        omega
+        have pc := (List.perm_cons_erase hm).count_eq a
+        simp only [SP.owned, eraseP_ids, List.count_cons, List.count_append] at pc ⊢
+        rw [pc]; omega
 
 theorem spFreeA_holds {p : SP} {s : AS} {o : List Id}
     (hv : (p.tree.entries.map (·.obj)).Perm (p.refs.map (·.1)))
